@@ -35,7 +35,7 @@ import (
 type h struct{}
 
 func (h) Rule() string {
-	return "seeded corpora of 6-40 documents (text fields t,u over a 3-8 word vocabulary of short a-d words sharing prefixes and one edit apart, keyword k, numeric n / datetime d / geo point g from boundary pools) spread over 2-6 batches with deletes and updates of live ids from the second batch on (70% with background merging made inert), each followed by 25 random query trees of depth <= 4 (term, match, phrase, multi-phrase, prefix, wildcard, regexp, fuzzy, term/numeric/date range, geo box/distance (at most one geo leaf, in half of the trees, sizes skewed small because of their execution cost), match-all/none leaves under boolean nodes with must/should/mustNot/minShould, 15% of booleans with 11-12 should clauses), preceded by one fixed regression corpus, plus (thorough) an exhaustive block of all subsets of {a,b,c} over five documents with 24 boolean shapes of depth <= 2 each; every query runs as AllMatches, TopN and TopN with score none; a case is one q line and is non-trivial when its AllMatches result is neither empty nor all live documents; every query runs as AllMatches, TopN(1000) and TopN(1000)+SetScore(none) on ONE long-lived reader per corpus (the writer's current root) and, for comparison, on a reference reader taken one epoch earlier whose snapshot never recycles postings iterators: a difference is printed as `<ids> !fresh=<ids>` (the answer depends on earlier searches); two fixed regression cases come first (min-should under score none / fuzziness 0; postings iterator reused after recycle)"
+	return "two fixed regression cases (min-should under score none / fuzziness 0; postings iterator reused after recycle), then geo-corner corpora (one query circle per corpus: runs of 2-4 doc-adjacent points in the corners of the circle's bounding box = inside the cell cover but 1.3 radii from the centre, most carrying a rare keyword tag, plus inside / far / point-less documents, no point within 20% of the edge; nine boolean shapes that put the geo clause beside the rarer tag so that the filtering geo searcher is ADVANCED), then seeded corpora of 6-40 documents (text fields t,u over a 3-8 word vocabulary of short a-d words sharing prefixes and one edit apart, keyword k, numeric n / datetime d / geo point g from boundary pools) spread over 2-6 batches with deletes and updates of live ids from the second batch on (70% with background merging made inert), each followed by 25 random query trees of depth <= 4 (term, match, phrase, multi-phrase, prefix, wildcard, regexp, fuzzy, term/numeric/date range, geo box/distance (at most one geo leaf, in half of the trees), match-all/none leaves under boolean nodes with must/should/mustNot/minShould, 15% of booleans with 11-12 should clauses), plus (thorough) an exhaustive block of all subsets of {a,b,c} over five documents with 24 boolean shapes of depth <= 2 each. Per corpus and reader one `snap` line prints the physical layout of the snapshot (real offsets, segment sizes, stored ids, deleted marks). Every query runs as AllMatches, TopN(1000) and TopN(1000)+SetScore(none) on ONE long-lived reader per corpus (the writer's current root) and on a reference reader taken one epoch earlier whose snapshot never recycles postings iterators (a difference is printed as `<ids> !fresh=<ids>`), and twice more (scored, score none) as a TRACE: the real searcher tree is rebuilt on the reader's snapshot, every node wrapped in a logging search.Searcher, driven by the real collector; the tree shape (with the real per-segment contents of every postings leaf) and every node's Next/Advance calls and answers are printed. A case is one q line and is non-trivial when its AllMatches result is neither empty nor all live documents"
 }
 
 // ---------------------------------------------------------------------------------------------
